@@ -118,6 +118,8 @@ YearDates == {W("normal", y, m, <<>>, d, <<>>, "", "") :
                        <<DPlus(B0(Dt(-1, 9, 1)))>>},
                 d \in {<<>>, D1}}
 Pairs == {W("normal", <<>>, <<>>, <<>>, d, t, "", "") : d \in WeekdaySels, t \in {T1, T2, <<Sp(Ev("sunrise", 0), Ev("sunset", 0))>>}}
+    \* a span whose two bounds are the same time lasts 24 hours from there: on the days of a selector it is not the whole day
+    \cup {W("normal", <<>>, <<>>, <<>>, d, <<Sp(Fx(600), Fx(600))>>, "", "") : d \in {D1, <<WdP(0, 0)>>, <<WdP(5, 1)>>}}
     \cup {W("normal", <<>>, m, <<>>, <<>>, t, "", "") : m \in MonthSels \cup DateSels, t \in {T1, T2}}
     \cup {W("normal", <<>>, m, <<>>, D1, <<>>, "", "") : m \in MonthSels \cup DateSels}
     \cup {W("normal", y, <<>>, <<>>, d, <<>>, "", "") : y \in YearSels, d \in {D1, <<PH(0)>>}}
